@@ -60,6 +60,8 @@ type World struct {
 	abortedReq bool
 	addressed  map[string]bool
 	restartAt  int
+	lenientUpload5xx bool
+	closing    bool // Close was called while requests are in flight: only liveness is judged
 	lastGCBusy bool
 	sessions map[int]*MSess
 	props  []string // properties this run's generic oracles speak for in addition to their own
@@ -288,6 +290,9 @@ func (w *World) faultOverlapped(r *Resp) bool {
 // generic applies the oracles that hold for every response (C15, the digest part of C01).
 func (w *World) generic(rs reqSpec, r *Resp) {
 	x := w.x
+	if w.closing {
+		return
+	}
 	if r.Panicked {
 		first, _, _ := strings.Cut(r.PanicMsg, "\n")
 		x.viol([]string{"C15"}, "req.panic", r.route+" "+rs.method+": "+normPanic(first), fmt.Sprintf("%s %s?%s panicked: %s", rs.method, rs.path, rs.query, r.PanicMsg))
@@ -310,6 +315,9 @@ func (w *World) generic(rs reqSpec, r *Resp) {
 			}
 		}
 		if w.tainted["*"] && len(rs.repos) == 0 {
+			excused = true
+		}
+		if w.lenientUpload5xx && (r.route == "upload" || r.route == "upload-post") {
 			excused = true
 		}
 		if !excused {
